@@ -79,10 +79,21 @@ def init_linear(n, m, g, local, term):
     return View(score, I32), View(trace, U8)
 
 
+SENTINEL_SRC = {}
+
+
+def sentinel(go, ge, minscore):
+    from vf.kx import wslice
+    v, text, line = wslice.evaluate("sequence/align/pairwise.pyx", "align_optimal", "neg_inf", ["neg_inf", "min_score"],
+                                    dict(gap_open=go, gap_ext=ge), {"np.min(matrix.score_matrix())": minscore}, "neg_inf")
+    SENTINEL_SRC["text"], SENTINEL_SRC["line"] = text, line
+    return v
+
+
 def init_affine(n, m, go, ge, minscore, local, term):
-    INT_MIN = -(1 << 31)
-    neg = (c32(INT_MIN) - go - ge).conv(I32)
-    neg = CInt(z3.If(bv(minscore) < 0, bv((neg - minscore).conv(I32)), bv(neg)), I32)
+    # the sentinel exactly as align_optimal computes it in the CURRENT source (statements cut out of the wrapper and
+    # evaluated over z3 integers, vf/kx/wslice.py); the table layout below is transcribed
+    neg = CInt(sentinel(bv(go), bv(ge), bv(minscore)), I32)
     mt = [[c32(0) for _ in range(m + 1)] for _ in range(n + 1)]
     g1 = [[neg for _ in range(m + 1)] for _ in range(n + 1)]
     g2 = [[neg for _ in range(m + 1)] for _ in range(n + 1)]
@@ -360,9 +371,7 @@ def source_score(w):
 
 
 def init_affine_concrete(n, m, go, ge, mn, local, term):
-    neg = -(1 << 31) - go - ge
-    if mn < 0:
-        neg -= mn
+    neg = sentinel(go, ge, mn)
     mt, g1, g2, tr = init_affine(n, m, CInt.const(go, I32), CInt.const(ge, I32), CInt.const(0, I32), local, term)
 
     def fix(v):
